@@ -250,23 +250,25 @@ def run_given(strategy, body, ctx, max_examples, shrink=None, salt=0):
     new = [b for b in col.failures if b not in before]
     if shrink:
         for bucket in new[:3]:
-            if col.failures[bucket].get("sig") is not None:
-                pass
             last = {}
 
-            def t2(case, bucket=bucket, last=last):
-                c2 = Collector()
-                body(case, c2)
-                if bucket in c2.failures:
-                    last["f"] = c2.failures[bucket]
-                    raise _Target()
+            def make_t2(bucket, last):
+                # NB: @given refuses functions with default arguments, hence a factory rather than defaults
+                def t2(case):
+                    c2 = Collector()
+                    body(case, c2)
+                    if bucket in c2.failures:
+                        last["f"] = c2.failures[bucket]
+                        raise _Target()
+
+                return t2
 
             try:
-                make([Phase.generate, Phase.shrink], t2)()
+                make([Phase.generate, Phase.shrink], make_t2(bucket, last))()
             except _Target:
                 pass
-            except Exception:
-                pass
+            except Exception as e:  # shrinking is best effort; keep the first-seen case
+                sys.stderr.write("note: shrinking of bucket %r failed: %s: %s\n" % (bucket, type(e).__name__, e))
             if "f" in last:
                 f = last["f"]
                 f["shrunk"] = True
